@@ -229,6 +229,7 @@ func classOf(s string) string {
 }
 
 func (p *c17) RunCase(i int) *core.CaseResult {
+	defer withNoise()()
 	r := &core.CaseResult{}
 	c := p.cases[i]
 	combos := optCombos()
